@@ -671,6 +671,7 @@ func runC01(c *Ctx) {
 	ruleLineReaderValue(c, "R01.c")
 	ruleOwnedBytes(c, "R01.c")
 	rulePayloadStores(c, "R01.e")
+	ruleNoWriteThroughView(c, "R01.i")
 	ruleIsNilMeansNull(c, "R01.e")
 	ruleConstructors(c)
 	ruleReentrantScratch(c, "R01.g", c.P.parserScope())
